@@ -116,7 +116,7 @@ impl rustc_driver::Callbacks for Cb {
         root.push(("fns".to_string(), fn_facts(tcx)));
 
         // MIR
-        let cx = mirdump::Cx { tcx };
+        let cx = mirdump::Cx { tcx, owner: std::cell::Cell::new(None) };
         let mut bodies = Vec::new();
         for ldid in tcx.hir_body_owners() {
             let did = ldid.to_def_id();
